@@ -64,6 +64,14 @@ OnH(e) ==
 Apply(e) ==
   CASE e.e = "tmpcfg" -> Result(st, {})
     [] e.e = "at" -> Result(st, {})      \* atomic steps of the stack list: judged by TempListTrace
+    \* a scope that made the stack take further blocks: they are kept for reuse when it ends (next_capacity() is
+    \* again what it was before the scope) unless shrink_to_fit() was requested, in which case they have gone back
+    \* (nothing cached: next_capacity() is what the block source delivers next, later than any block taken so far)
+    [] e.e = "tpair" -> Result(st, Chk(e.r = "ok", "C14", "ScopeRestoresStack", <<"pair", e.r>>)
+                               \cup Chk(e.shr \/ e.r # "ok" \/ e.nca = e.nc0, "C14", "BlocksKeptForReuse", <<e.nc0, e.ncm, e.nca>>)
+                               \* (blocks cached by earlier scopes go back as well, so the next block can be even later than ncm)
+                               \cup Chk(~e.shr \/ e.r # "ok" \/ (e.nca >= e.ncm /\ (e.ncm > e.nc0 => e.nca > e.nc0)),
+                                        "C14", "ShrinkRequestReturnsBlocks", <<e.nc0, e.ncm, e.nca>>))
     [] e.e = "tstart" -> OnTstart(e)
     [] e.e = "got" -> OnGot(e)
     [] e.e = "scope_begin" -> OnScopeBegin(e)
